@@ -191,8 +191,10 @@ def check(prop, tier, seed, t0, no_build=False):
     if broken:
         ctx.escalate = True
 
+    cov = start_coverage(tier)
     core.import_real()
     st = run_cases(mod, ctx, driver_ok)
+    code_cov = stop_coverage(cov, prop)
 
     # ---- classification
     known = [k for k in core.load_known() if k["property"] == prop and k.get("status") == "open"]
@@ -253,6 +255,7 @@ def check(prop, tier, seed, t0, no_build=False):
             correspondence_disagreements=len(st["mismatches"]), spec_failures=len(st["specfails"]),
             known_findings_seen=sorted(known_hits.keys()), broken_obligations=broken, escalated=ctx.escalate,
             notes=ctx.notes,
+            **({"anchor_code_coverage": code_cov} if code_cov else {}),
         ),
         assumptions=list(getattr(mod, "ASSUMPTIONS", [])),
         wall_s=round(wall, 2), violations=len(violations) + (1 if (exit_code == 1 and not violations) else 0),
@@ -264,6 +267,48 @@ def check(prop, tier, seed, t0, no_build=False):
         "OK" if exit_code == 0 else "FAIL", prop, tier, seed, discharged, obligations, st["evaluations"],
         len(st["distinct"]), len(st["mismatches"]), len(st["specfails"]), len(known_hits), wall))
     return exit_code
+
+
+def start_coverage(tier):
+    """line / branch coverage of /repo's code by the real side of the correspondence (thorough tier, or VERIF_COVERAGE=1):
+    reported in the evidence so that a reader can see which parts of the anchored files the generators reach"""
+    want = os.environ.get("VERIF_COVERAGE")
+    if want == "0" or (want is None and tier != "thorough"):
+        return None
+    try:
+        import coverage
+        cov = coverage.Coverage(branch=True, data_file=None, include=[os.path.join(core.REPO, "src", "pyModeS", "*")])
+        cov.start()
+        return cov
+    except Exception:
+        return None
+
+
+def stop_coverage(cov, prop):
+    if cov is None:
+        return None
+    try:
+        cov.stop()
+        files = []
+        for line in open(os.path.join(VERIF, "properties.jsonl")):
+            p = json.loads(line)
+            if p["id"] == prop:
+                files = [f for f in p["anchors"]["files"] if f.endswith(".py")]
+        out = {}
+        for f in files:
+            path = os.path.join(core.REPO, f)
+            if not os.path.exists(path):
+                continue
+            try:
+                an = cov._analyze(path)
+                nums = an.numbers
+                out[f] = dict(statements=nums.n_statements, executed=nums.n_executed, branches=nums.n_branches,
+                              executed_branches=nums.n_executed_branches, missing_lines=sorted(an.missing)[:400])
+            except Exception as e:  # file never imported
+                out[f] = dict(error=str(e)[:100])
+        return out
+    except Exception:
+        return None
 
 
 def tail(s, n=600):
